@@ -200,7 +200,10 @@ func TestC13FileSink(t *testing.T) {
 	rapid.Check(t, func(t *rapid.T) {
 		caseNo++
 		cfgFmt := rapid.SampledFrom([]string{"", "", eventlogger.JSONFormat, "text", "custom", "missing"}).Draw(t, "sinkFormat")
-		kind := rapid.SampledFrom([]string{"dir", "dir", "dir", "devnull", "stdout", "stderr", "uncreatable"}).Draw(t, "path")
+		kind := rapid.SampledFrom([]string{"dir", "dir", "dir", "devnull", "stdout", "stderr", "uncreatable", "devfull", "stdout-closed"}).Draw(t, "path")
+		if _, err := os.Stat("/dev/full"); err != nil && kind == "devfull" {
+			kind = "uncreatable"
+		}
 		nconc := rapid.SampledFrom([]int{1, 1, 2, 4, 8, 16}).Draw(t, "concurrency")
 		if kind != "dir" {
 			nconc = 1
@@ -224,6 +227,14 @@ func TestC13FileSink(t *testing.T) {
 			}
 		case "uncreatable":
 			sink.Path = filepath.Join(blocker, "sub")
+		case "devfull":
+			// the file opens fine and every write(2) fails with ENOSPC, also the sink's single retry
+			sink.Path, sink.FileName = "/dev", "full"
+		case "stdout-closed":
+			sink.Path = "/dev/stdout"
+			capture, _ = os.Create(filepath.Join(root, fmt.Sprintf("closed%d", caseNo)))
+			capture.Close()
+			saved, os.Stdout = os.Stdout, capture
 		}
 		type call struct {
 			tb  tableGen
@@ -248,7 +259,7 @@ func TestC13FileSink(t *testing.T) {
 		}
 		wg.Wait()
 		if saved != nil {
-			if kind == "stdout" {
+			if kind == "stdout" || kind == "stdout-closed" {
 				os.Stdout = saved
 			} else {
 				os.Stderr = saved
@@ -284,6 +295,10 @@ func TestC13FileSink(t *testing.T) {
 			case kind == "uncreatable":
 				if c.err == nil {
 					t.Fatalf("VIOLATION C13: success although the log directory cannot be created\ncase: %s", desc)
+				}
+			case kind == "devfull" || kind == "stdout-closed":
+				if c.err == nil && has && len(val) > 0 {
+					t.Fatalf("VIOLATION C13: success although every write to the underlying file fails (%s)\ncase: %s", kind, desc)
 				}
 			case !has:
 				if c.err == nil {
@@ -343,7 +358,8 @@ func TestC13ChannelSink(t *testing.T) {
 		drainMs := rapid.SampledFrom([]int{-1, -1, 0, 0, 5, 60}).Draw(t, "drainAfterMs")
 		timeoutMs := rapid.SampledFrom([]int{1, 5, 20, 40, 10000}).Draw(t, "timeoutMs")
 		cancelMs := rapid.SampledFrom([]int{-2, -2, -1, 1, 10, 40}).Draw(t, "cancelAfterMs") // -2 never, -1 before
-		if timeoutMs == 10000 && drainMs < 0 && cancelMs == -2 && !(capn == 1 && !prefill) {
+		deadlineMs := rapid.SampledFrom([]int{0, 0, 0, 10, 4500}).Draw(t, "ctxDeadlineMs") // 0 = no deadline on the context
+		if timeoutMs == 10000 && drainMs < 0 && cancelMs == -2 && deadlineMs != 10 && !(capn == 1 && !prefill) {
 			cancelMs = 10 // nobody would ever take the event: do not sit out the 10 s timeout
 		}
 		ch := make(chan *eventlogger.Event, capn)
@@ -355,7 +371,13 @@ func TestC13ChannelSink(t *testing.T) {
 		if err != nil {
 			t.Fatalf("VIOLATION C13: NewChannelSink rejected valid arguments: %v", err)
 		}
-		ctx, cancel := context.WithCancel(context.Background())
+		parent := context.Background()
+		if deadlineMs > 0 {
+			var dcancel context.CancelFunc
+			parent, dcancel = context.WithTimeout(parent, time.Duration(deadlineMs)*time.Millisecond)
+			defer dcancel()
+		}
+		ctx, cancel := context.WithCancel(parent)
 		defer cancel()
 		if cancelMs == -1 {
 			cancel()
@@ -421,7 +443,7 @@ func TestC13ChannelSink(t *testing.T) {
 		time.Sleep(30 * time.Millisecond)
 		close(stopDrain)
 		<-drainDone
-		desc := fmt.Sprintf("cap=%d prefilled=%v drainAfter=%dms timeout=%dms cancel=%dms", capn, prefill, drainMs, timeoutMs, cancelMs)
+		desc := fmt.Sprintf("cap=%d prefilled=%v drainAfter=%dms timeout=%dms cancel=%dms ctxDeadline=%dms", capn, prefill, drainMs, timeoutMs, cancelMs, deadlineMs)
 		if out != nil {
 			t.Fatalf("VIOLATION C13: ChannelSink returned an event\ncase: %s", desc)
 		}
@@ -440,31 +462,35 @@ func TestC13ChannelSink(t *testing.T) {
 		} else if cancelMs > 0 && time.Duration(cancelMs)*time.Millisecond < deadline {
 			deadline = time.Duration(cancelMs) * time.Millisecond
 		}
+		if deadlineMs > 0 && cancelMs != -1 && time.Duration(deadlineMs)*time.Millisecond < deadline {
+			deadline = time.Duration(deadlineMs) * time.Millisecond
+		}
 		if elapsed > deadline+2*time.Second {
 			t.Fatalf("VIOLATION C13: ChannelSink blocked %v, longer than min(timeout, context) = %v\ncase: %s", elapsed, deadline, desc)
 		}
-		if perr != nil && !errors.Is(perr, context.Canceled) && elapsed < time.Duration(timeoutMs)*time.Millisecond-time.Millisecond {
+		isCtxErr := errors.Is(perr, context.Canceled) || errors.Is(perr, context.DeadlineExceeded)
+		if perr != nil && !isCtxErr && elapsed < time.Duration(timeoutMs)*time.Millisecond-time.Millisecond {
 			// a context error is legitimate whenever the context is done (the cancel timer is armed before
 			// the call, so a descheduled test goroutine may find it done at once); a timeout error is not
 			// legitimate before the timeout elapsed
 			t.Fatalf("VIOLATION C13: ChannelSink gave up after %v with %q, before its timeout of %dms elapsed\ncase: %s", elapsed, perr, timeoutMs, desc)
 		}
-		if perr != nil && errors.Is(perr, context.Canceled) && ctx.Err() == nil {
+		if perr != nil && isCtxErr && ctx.Err() == nil {
 			t.Fatalf("VIOLATION C13: ChannelSink reported a context error although the context is not done\ncase: %s", desc)
 		}
 		room := capn == 1 && !prefill
-		if perr != nil && cancelMs == -2 && (room || (drainMs == 0 && timeoutMs == 10000)) {
+		if perr != nil && cancelMs == -2 && deadlineMs == 0 && (room || (drainMs == 0 && timeoutMs == 10000)) {
 			t.Fatalf("VIOLATION C13: ChannelSink failed (%v) although the channel could take the event and the context was never cancelled\ncase: %s", perr, desc)
 		}
 		cl := []string{}
 		if perr == nil {
 			cl = append(cl, "delivered")
-		} else if errors.Is(perr, context.Canceled) {
+		} else if isCtxErr {
 			cl = append(cl, "ctx_error")
 		} else {
 			cl = append(cl, "timeout_error")
 		}
-		nt := (cancelMs > 0 && timeoutMs < 10000 && cancelMs != timeoutMs) || (drainMs > 0 && time.Duration(drainMs)*time.Millisecond < deadline+20*time.Millisecond)
+		nt := (deadlineMs > 0 && timeoutMs < 10000) || (cancelMs > 0 && timeoutMs < 10000 && cancelMs != timeoutMs) || (drainMs > 0 && time.Duration(drainMs)*time.Millisecond < deadline+20*time.Millisecond)
 		if nt {
 			cl = append(cl, "deadline_order_matters")
 		}
